@@ -437,6 +437,12 @@ func (tps *TPS) combineShares() PK {
 			tps.sk.ys[i] = tps.sk.ys[i].Plus(share.ys[i])
 		}
 	}
+	// Plus does not reduce: keep the sums of the shares within the field, or they outgrow their 32 byte encoding
+	// once enough parties take part
+	tps.sk.x.Mod(tps.pp.c.GroupOrder)
+	for i := 0; i < len(tps.sk.ys); i++ {
+		tps.sk.ys[i].Mod(tps.pp.c.GroupOrder)
+	}
 
 	pk := PK{
 		X: tps.pp.g2.Mul(tps.sk.x),
